@@ -3,7 +3,7 @@
 Theorems (Lean, RsomeV/Props/C03.lean): `dro_sound` — with conditional expectation operators (linear, monotone on the
 support, normalised; every probability measure on the support induces one) the second-stage robust rows and the
 first-stage robust row over the lifted (probability, scaled-mean) support imply the bound on the expected integrand for
-every distribution of the event-wise ambiguity set; `mixSupport_sound` — every admissible (p, means) lifts to a point of
+every distribution of the event-wise ambiguity set; `mixSupport_lift` — every admissible (p, means) lifts to a point of
 the model of Ambiguity.mix_support.  Tie: the lifted support built by the real mix_support vs the Lean model; rule_var
 (C13).  Search: extreme distributions by an LP over support vertices at the returned decisions."""
 import numpy as np
